@@ -72,7 +72,8 @@ def run(ctx):
     mt.preimport()
     pool = ThreadPoolExecutor(max_workers=3)
     Km, Nm, Rm = ctx.pick((4, 3, 1), (5, 3, 2))
-    props = ["PathOrder", "ReactionAfterFill", "TempFollowsPath", "FinalIsFinal", "SkipBranchesDead", "TypeOK"]
+    props = ["PathOrder", "ReactionAfterFill", "TempFollowsPath", "FinalIsFinal", "SkipBranchesDead", "MarketFilledInMinute",
+             "FillAtFirstReach", "TypeOK"]
     jobs = {
         'candle_split_k6': pool.submit(tlc.run, "CandleSplitMC", cfg_text=split_cfg(6), workers=1, coverage=True, timeout=600),
         'matching_path': pool.submit(tlc.run, "Matching", cfg_text=c02.matching_cfg(Km, Nm, Rm, props=props),
